@@ -33,7 +33,14 @@ impl InputPlugin for InjectInputPlugin {
                 )));
             }
         }
-        input[self.key.clone()] = self.value.clone();
-        Ok(())
+        match input.as_object_mut() {
+            None => Err(InputPluginError::UnexpectedQueryStructure(String::from(
+                "query is not a JSON object",
+            ))),
+            Some(obj) => {
+                obj.insert(self.key.clone(), self.value.clone());
+                Ok(())
+            }
+        }
     }
 }
